@@ -18,6 +18,9 @@
 //	hb         heartbeat only
 //	lose       the commands in flight for the region are lost
 //	push       PushOperators
+//	clock      the virtual clock (installed in server/schedule and server/schedule/operator
+//	           through the build overlay) advances by 1 s ... 31 min
+//	influence  GetOpInfluence, as the schedulers call it (it runs CheckTimeout on running operators)
 //	foreign    somebody else changes the region on the store (conf change, joint
 //	           enter/leave, leader transfer, split), tagged foreign in the simulator
 //
@@ -39,6 +42,7 @@ package c09
 import (
 	"os"
 	"testing"
+	"time"
 
 	"pdverif/simkit"
 	"pdverif/vkit"
@@ -96,6 +100,7 @@ type Op struct {
 	N     int       `json:"n,omitempty"`    // add waiting: number of pooled bundles (1..3)
 	Which int       `json:"which,omitempty"`
 	NoHB  bool      `json:"nohb,omitempty"` // exec without the heartbeat that normally follows
+	D     int       `json:"d,omitempty"`    // clock: index into clockSteps
 	F     *Foreign  `json:"f,omitempty"`
 }
 
@@ -124,6 +129,12 @@ var foreignKinds = []string{
 }
 
 const nTemplates = 9
+
+// clockSteps: by how much a "clock" event advances the virtual clock. Around
+// OperatorExpireTime (3 s), the push intervals (2 s / 5 s), FastOperatorWaitTime
+// (10 s; 1+3+6 s hits it exactly) and SlowOperatorWaitTime (10 min).
+var clockSteps = []time.Duration{time.Second, 3 * time.Second, 6 * time.Second, 11 * time.Second, time.Minute,
+	10*time.Minute + time.Second, 31 * time.Minute}
 
 func genReq(t *rapid.T) *BuildReq {
 	q := &BuildReq{Kind: simkit.Pick(t, buildKinds, "buildKind")}
@@ -185,10 +196,10 @@ func genCase(t *rapid.T) Case {
 	nOps := simkit.IntU(t, 4, 36, "nOps")
 	focused := simkit.Pct(t, 30, "focused")
 	kinds := []string{"build", "build", "build", "exec", "exec", "exec", "exec", "exec", "exec", "exec", "exec",
-		"hb", "hb", "push", "remove", "foreign", "foreign", "foreign", "lose", "add"}
+		"hb", "hb", "push", "push", "remove", "foreign", "foreign", "foreign", "lose", "add", "clock", "clock", "influence"}
 	if focused {
 		kinds = []string{"exec", "exec", "exec", "exec", "exec", "exec", "exec", "exec", "exec", "exec", "exec", "exec",
-			"hb", "push", "build", "foreign"}
+			"hb", "push", "build", "foreign", "clock", "influence"}
 	}
 	region := func() int { return simkit.IntU(t, 0, 3, "r") }
 	add := func(r int) Op {
@@ -200,7 +211,25 @@ func genCase(t *rapid.T) Case {
 		return op
 	}
 	r0 := region()
-	c.Ops = append(c.Ops, Op{Kind: "build", R: r0, Req: genReq(t)}, add(r0))
+	if n > 1 && simkit.Pct(t, 12, "slowMerge") {
+		// a slow merge: the pair is admitted, time passes, a scheduler asks for the operator influence,
+		// the store commits the merge, the push loop finds the source region gone
+		q := genReq(t)
+		q.Kind = "merge"
+		c.Ops = append(c.Ops, Op{Kind: "build", R: r0, Req: q}, Op{Kind: "add", R: r0})
+		for _, k := range []string{"clock", "influence", "exec", "push"} {
+			if simkit.Pct(t, 12, "skip") {
+				continue
+			}
+			op := Op{Kind: k, R: r0}
+			if k == "clock" {
+				op.D = simkit.Pick(t, []int{3, 3, 5, 5, 2, 6}, "dMerge")
+			}
+			c.Ops = append(c.Ops, op)
+		}
+	} else {
+		c.Ops = append(c.Ops, Op{Kind: "build", R: r0, Req: genReq(t)}, add(r0))
+	}
 	for len(c.Ops) < nOps {
 		op := Op{Kind: simkit.Pick(t, kinds, "kind"), R: region()}
 		if focused && simkit.Pct(t, 85, "sameRegion") {
@@ -231,6 +260,8 @@ func genCase(t *rapid.T) Case {
 			op.Which = simkit.IntU(t, 0, 2, "which")
 		case "exec":
 			op.NoHB = simkit.Pct(t, 10, "nohb")
+		case "clock":
+			op.D = simkit.Pick(t, []int{0, 0, 1, 1, 2, 2, 3, 3, 4, 5, 6}, "d")
 		case "remove":
 			op.Which = simkit.Pick(t, []int{0, 0, 0, 1}, "whichRemove")
 		case "foreign":
